@@ -17,7 +17,10 @@ use isograph_schema::{
     validated_entrypoints,
 };
 
-use crate::generate_artifacts::{ISO_TS_FILE_NAME, print_javascript_type_declaration};
+use crate::{
+    generate_artifacts::{ISO_TS_FILE_NAME, print_javascript_type_declaration},
+    js_string::escape_for_single_quoted_js_string,
+};
 
 fn build_iso_overload_for_entrypoint<TCompilationProfile: CompilationProfile>(
     db: &IsographDatabase<TCompilationProfile>,
@@ -250,10 +253,17 @@ export function iso(_isographLiteralText: string):
                 .into_iter()
                 .map(|(field, entrypoint_declaration_info)| {
                     let field = field.lookup(db);
+                    // At runtime, iso receives the value of the template literal, in which
+                    // "\r\n" and "\r" have been normalized to "\n".
+                    let iso_literal_value = entrypoint_declaration_info
+                        .iso_literal_text
+                        .lookup()
+                        .replace("\r\n", "\n")
+                        .replace('\r', "\n");
                     format!(
                         "    case '{}':
       return entrypoint_{};\n",
-                        entrypoint_declaration_info.iso_literal_text,
+                        escape_for_single_quoted_js_string(&iso_literal_value),
                         field
                             .entity_name_and_selectable_name()
                             .underscore_separated()
